@@ -16,6 +16,12 @@ def crate_dir(ctx):
     return os.path.join(common.WORK, "gendrv-%s-%d" % (ctx.tier, ctx.seed))
 
 
+def crate_name(ctx):
+    """The emitter names the crate after its directory (one target directory per tier serves
+    every seed: executables must not share a name)."""
+    return re.sub(r"[^A-Za-z0-9]", "_", os.path.basename(crate_dir(ctx)))
+
+
 def target_dir(ctx):
     return os.path.join(common.WORK, "target-gendrv-%s" % ctx.tier)
 
@@ -135,7 +141,7 @@ def build(ctx, d, profile, hooks, check_only=False, features=(), target=None):
     env["CARGO_TARGET_DIR"] = target or target_dir(ctx)
     with common.Lock("gendrv-build-%s" % ctx.tier):
         rc, out, err = common.sh(cmd, cwd=d, env=env, timeout=3600)
-    return rc, err, os.path.join(target or target_dir(ctx), "release" if profile == "release" else "debug", "gendrv")
+    return rc, err, os.path.join(target or target_dir(ctx), "release" if profile == "release" else "debug", crate_name(ctx))
 
 
 def prepare(ctx, combos):
@@ -396,7 +402,7 @@ def run_asan(ctx, d, label, pid, episodes, max_ops, release=False):
     if rc != 0:
         ctx.inconclusive.append("AddressSanitizer build failed: %s" % "\n".join((err or "").splitlines()[-8:]))
         return
-    binary = os.path.join(env["CARGO_TARGET_DIR"], "x86_64-unknown-linux-gnu", "release" if release else "debug", "gendrv")
+    binary = os.path.join(env["CARGO_TARGET_DIR"], "x86_64-unknown-linux-gnu", "release" if release else "debug", crate_name(ctx))
     renv = dict(common.ENV)
     renv["ASAN_OPTIONS"] = "detect_leaks=1:halt_on_error=1:detect_stack_use_after_return=1"
     nsh = 12
@@ -412,7 +418,7 @@ def run_asan(ctx, d, label, pid, episodes, max_ops, release=False):
         m = re.search(r"ERROR: (AddressSanitizer|LeakSanitizer): ([^\n]*)", err or "")
         if m:
             what = m.group(2).split(" on address")[0].split(" at pc")[0][:80]
-            frames = [l.strip() for l in (err or "").splitlines() if re.match(r"\s*#\d+ ", l) and ("/repo/" in l or "/src/m" in l or "gendrv::m" in l)][:2]
+            frames = [l.strip() for l in (err or "").splitlines() if re.match(r"\s*#\d+ ", l) and ("/repo/" in l or "/src/m" in l or re.search(r"gendrv\w*::m", l))][:2]
             leak = m.group(1) == "LeakSanitizer" or "double-free" in what or "attempting free" in what
             if pid == "C07" or (pid == "C06" and leak):
                 ctx.violation("asan", "[%s] %s: %s | %s | run %s" % (label, m.group(1), what, " <- ".join(f[:160] for f in frames), lab),
